@@ -112,6 +112,9 @@ func (e *Engine) Verify(ct *Contract, prop string, findings []Finding) (res *Uni
 			u.describe(name, ut.Elem(), v)
 		default:
 			v := u.havoc(st, t, name)
+			if sl, ok := v.(SliceV); ok && isModified(ct, i) && sl.R != nil {
+				u.modRgn[sl.R] = true
+			}
 			args = append(args, v)
 			u.describe(name, t, v)
 		}
